@@ -489,10 +489,11 @@ def chain_matrix(ctx, thorough):
 
 
 # ---------------------------------------------------------------- byte-flipping man in the middle (message level)
-def exchange(D, tls, c, s, tamper):
+def exchange(D, tls, c, s, tamper, refusals=None):
     """message-by-message handshake between two real contexts; `tamper(direction,
     index, message)` may alter a message in flight.  Returns the per-direction
-    message lists as SENT."""
+    message lists as SENT.  `refusals` (a list) collects every refused message that nevertheless
+    changed the receiver's handshake state or traffic secrets (tlsdrive.digest, weak form)."""
     sent = {"c2s": [], "s2c": []}
     dead = {"c": False, "s": False}
     exc0, out = D.feed(c, b"")
@@ -508,9 +509,14 @@ def exchange(D, tls, c, s, tamper):
         dst, key, back = (s, "s", "s2c") if direction == "c2s" else (c, "c", "c2s")
         if dead[key]:
             continue
+        before = D.digest(dst, strict=False) if refusals is not None else None
         exc, out = D.feed(dst, m2)
         if exc is not None:
             dead[key] = True
+            if refusals is not None:
+                changed = D.digest_diff(before, D.digest(dst, strict=False))
+                if changed:
+                    refusals.append((direction, idx, m2, repr(exc), changed))
             continue
         try:
             queue += [(back, x) for x in D.split(out)]
@@ -619,9 +625,11 @@ def run_alteration(tls, D, mk, d, i, alt):
             return m2
         return m
 
-    exchange(D, tls, c, s, tamper)
+    refusals = []
+    exchange(D, tls, c, s, tamper, refusals)
     receiver = s if d == "c2s" else c
     altered = "sent" in seen and seen["sent"] != seen["delivered"]
+    run_alteration.refusals = refusals
     return (receiver.state in POST) and altered, seen.get("sent"), seen.get("delivered")
 
 
@@ -646,6 +654,13 @@ def byte_flips(ctx, r, thorough):
             done, sent, delivered = run_alteration(tls, D, mk, d, i, alt)
             total += 1
             ctx.count(("flip", vname, d, i, alt), True)
+            for rd, ri, rm, rexc, changed in run_alteration.refusals:
+                ctx.witness(f"{vname}: the receiver refused a message of type {rm[0]} ({rd}, altered by {alt}) with {rexc} but "
+                            f"its {changed} changed: traffic secrets were installed / the state moved for a message that "
+                            f"was not accepted",
+                            {"kind": "flip", "variant": vname, "direction": d, "message_index": i, "alteration": list(alt),
+                             "refused": rm.hex(), "changed": changed},
+                            {"oracle": "refused-message-changes-state", "variant": vname, "type": int(rm[0])})
             if done:
                 mt = sent[0]
                 ctx.witness(f"{vname}: handshake message type {mt} ({d}) was altered in flight ({alt}) and the receiving "
@@ -738,7 +753,7 @@ def replay(path):
     rep = d.get("replay", {})
     kind = rep.get("kind")
     ctx = core.Ctx("replay", "quick")
-    if kind in ("rogue", "genuine", "rogue-content", "key-release"):
+    if kind in ("rogue", "genuine", "rogue-content", "key-release", "refusal"):
         ws = tlsrogue.replay(rep)
     elif kind == "name":
         ca, ca_key = Q.make_ca()
@@ -776,6 +791,8 @@ def replay(path):
         done, sent, delivered = run_alteration(tls, D, mk, rep["direction"], rep["message_index"], alt)
         ws = [{"what": f"{rep['variant']}: message {rep['message_index']} ({rep['direction']}) altered by {alt}; "
                        f"the receiver still completed"}] if done else []
+        ws += [{"what": f"{rep['variant']}: refused message of type {rm[0]} changed {ch}"}
+               for _, _, rm, _, ch in run_alteration.refusals]
     elif kind == "pair":
         rr = rep["rerun"]
         co, so = dict(rr["client_options"]), dict(rr["server_options"])
